@@ -58,6 +58,20 @@ def rule_z1(chk: Check, ix: Index):
     chk.count("Z1-pipeline-agreement")
     chk.require(sorted(pa) == sorted(pb), "Z1-pipeline-agreement", "entry-points:options", where,
                 f"options differ: parse_file takes {pa}, parse_string takes {pb}")
+    # what happens around the parse: both entry points let the same exceptions out (no try/except in one of them only)
+    chk.count("Z1-pipeline-agreement")
+
+    def handlers(f):
+        out = []
+        for t in [n for n in own_nodes(f.node) if isinstance(n, ast.Try)]:
+            if any(isinstance(c, ast.Call) and norm_stmt(c.func) == "parser.parse" for b in t.body for c in ast.walk(b)):
+                out += [norm_stmt(h.type) if h.type is not None else "*" for h in t.handlers] + (["finally"] if t.finalbody else [])
+        return sorted(out)
+
+    ha, hb = handlers(pf), handlers(ps)
+    chk.require(ha == hb, "Z1-pipeline-agreement", "entry-points:exceptions", where,
+                f"exceptions of the parse are handled differently: parse_file {ha or 'lets everything out'}, parse_string "
+                f"{hb or 'lets everything out'} — the same source then fails with different exception classes")
     # generator argument: a readline bound method
     chk.count("Z1-pipeline-agreement")
     ga, gb = norm_stmt(a[0][0].args[0]), norm_stmt(b[0][0].args[0])
@@ -156,6 +170,8 @@ def run(chk: Check):
     from .c08 import rule_l2
     from .c13 import rule_u2, rule_u3
     rule_l2(chk, ix)
+    from .c08 import rule_l5
+    rule_l5(chk, ix)
     rule_u2(chk)
     rule_u3(chk, ix)
     chk.floor("Z1-pipeline-agreement", 6)
